@@ -99,7 +99,7 @@ impl Aut {
                     },
                 }
             }
-            ArrSpec::Sum(v) => {
+            ArrSpec::Sum(v) | ArrSpec::Slice(v) => {
                 Aut::Product(v.iter().map(Aut::of).collect::<Option<Vec<_>>>()?)
             }
             ArrSpec::SumOf(a, b) => Aut::Product(vec![Aut::of(a)?, Aut::of(b)?]),
